@@ -40,6 +40,7 @@ type realHistory struct {
 	subs    []submission               // every SubmitValidityProof of the current round
 	ghost   map[string]map[int][]int64 // uri -> validator id -> indices of the proof in force
 	deputy  map[int]int                // validator index -> account index of its registered deputy
+	queries []queryResult              // query cases of the current round
 }
 
 // accounts: 0-1 publishers, 1-3 challengers, 4.. deputies
@@ -375,6 +376,19 @@ func (rh *realHistory) round(kind int) (blocks []blockResult, oor bool, err erro
 	if kind == rndRandom {
 		rh.churnDeputies()
 	}
+	// sometimes fewer validator slots than validators: the surplus validators leave the bonded
+	// set at the next block (unbonding, not jailed) but stay in the staking power index
+	if r.Chance(1, 3) {
+		sp, e := w.h.App.StakingKeeper.Params.Get(ctx)
+		if e != nil {
+			return nil, false, e
+		}
+		sp.MaxValidators = uint32(emit.Pick(r, 3, 4, 4, len(w.vals)))
+		if e := w.h.App.StakingKeeper.Params.Set(ctx, sp); e != nil {
+			return nil, false, e
+		}
+		rh.msgHist[fmt.Sprintf("max-validators:%d", sp.MaxValidators)]++
+	}
 	// replication factor / fault threshold of the round
 	rf := emit.Pick(r, "5", "3", "1.5", "2", "4.5", "1")
 	directedX := -1
@@ -423,7 +437,9 @@ func (rh *realHistory) round(kind int) (blocks []blockResult, oor bool, err erro
 	bonded = rh.bondedVals()
 	for i, it := range items {
 		n := it.n
-		thr := w.threshold(ctx, n)
+		thr := w.ghostThr(ctx, n) // validators prove what the protocol rule assigns them
+		qt, qi := w.queryCase(ctx, n)
+		rh.queries = append(rh.queries, queryResult{qt, qi})
 		if kind != rndRandom && i == 0 && directedX >= 0 {
 			// directed item: X and a chosen number of other provers, everybody lists every shard
 			k := needed(rf)
